@@ -147,6 +147,11 @@ func hostileInputs(tier string, r *rng) []hostile {
 			add("jks:entrytype", "k.jks", b.Bytes())
 		}
 	}
+	for _, d := range jksFieldSweep(r) {
+		if len(d) >= 12 {
+			add("jks:fieldsweep", "k.jks", d)
+		}
+	}
 	// 4. RPM: index counts / offsets / types at boundaries
 	for _, cnt := range boundaries {
 		for _, typ := range []int{1, 2, 3, 4, 5, 6, 7, 8, 9, 0, 10} {
@@ -296,55 +301,8 @@ func hostileInputs(tier string, r *rng) []hostile {
 		}
 	}
 	// 5c. OpenSSH private key container: every length field, the key count and the KDF options at boundary values
-	{
-		str := func(b []byte) []byte { return append([]byte{byte(len(b) >> 24), byte(len(b) >> 16), byte(len(b) >> 8), byte(len(b))}, b...) }
-		u32 := func(v uint32) []byte { return []byte{byte(v >> 24), byte(v >> 16), byte(v >> 8), byte(v)} }
-		pub := append(str([]byte("ssh-ed25519")), str(r.bytes(32))...)
-		priv := r.bytes(64)
-		container := func(cipher, kdf string, opts []byte, nkeys uint32) []byte {
-			var c []byte
-			c = append(c, "openssh-key-v1\x00"...)
-			c = append(c, str([]byte(cipher))...)
-			c = append(c, str([]byte(kdf))...)
-			c = append(c, str(opts)...)
-			c = append(c, u32(nkeys)...)
-			c = append(c, str(pub)...)
-			c = append(c, str(priv)...)
-			return c
-		}
-		pemOf := func(c []byte) []byte { return pemWrap("OPENSSH PRIVATE KEY", c, false) }
-		salt := r.bytes(16)
-		for _, sl := range []uint32{0, 1, 15, 16, 17, 0xFFFF, 0x7FFFFFFF, 0x80000000, 0xFFFFFFF7, 0xFFFFFFF8, 0xFFFFFFF9, 0xFFFFFFFB, 0xFFFFFFFC, 0xFFFFFFFD, 0xFFFFFFFF} {
-			for _, tail := range [][]byte{nil, {0, 0, 0, 16}, append(append([]byte{}, salt...), 0, 0, 0, 16), salt} {
-				opts := append(u32(sl), tail...)
-				add("openssh:kdfopts", "id_ed25519", pemOf(container("aes256-ctr", "bcrypt", opts, 1)))
-			}
-		}
-		for n := 0; n < 8; n++ {
-			add("openssh:kdfopts-short", "id_ed25519", pemOf(container("aes256-ctr", "bcrypt", r.bytes(n), 1)))
-		}
-		for _, nk := range boundaries {
-			add("openssh:nkeys", "id_ed25519", pemOf(container("none", "none", nil, nk)))
-		}
-		good := container("aes256-ctr", "bcrypt", append(append(u32(16), salt...), 0, 0, 0, 16), 1)
-		// every 4-octet length field of the container at boundary values
-		offs := []int{15}
-		o := 15
-		for i := 0; i < 3; i++ {
-			o += 4 + int(binary.BigEndian.Uint32(good[o:]))
-			offs = append(offs, o)
-		}
-		offs = append(offs, o+4, o+8) // nkeys, then pubkey length
-		for _, f := range offs {
-			for _, l := range boundaries {
-				m := append([]byte{}, good...)
-				binary.BigEndian.PutUint32(m[f:], l)
-				add("openssh:lenfield", "id_ed25519", pemOf(m))
-			}
-		}
-		for i := 0; i < len(good); i += 3 {
-			add("openssh:prefix", "id_ed25519", pemOf(good[:i]))
-		}
+	for _, c := range opensshHostile(r) {
+		add("openssh:"+c.kind, "id_ed25519", pemWrap("OPENSSH PRIVATE KEY", c.der, false))
 	}
 	// 6. every file of <= 3 bytes (quick) / 4 bytes (thorough) over the base64 class alphabet
 	alpha := []byte{'A', '+', '/', '-', '_', '=', '\n', '\r', ' ', '!'}
@@ -458,6 +416,67 @@ func bigInputs(tier string, r *rng) []hostile {
 	return hs
 }
 
+type opensshInput struct {
+	kind string
+	der  []byte
+}
+
+// opensshHostile: openssh-key-v1 containers with every length field, the key count and the KDF options at boundary values
+func opensshHostile(r *rng) []opensshInput {
+	var out []opensshInput
+	add := func(kind string, der []byte) { out = append(out, opensshInput{kind, der}) }
+	boundaries := []uint32{0, 1, 0xFFFF, 0x7FFFFFFF, 0xFFFFFFFF, 0x80000000, 0x00010000}
+	str := func(b []byte) []byte { return append([]byte{byte(len(b) >> 24), byte(len(b) >> 16), byte(len(b) >> 8), byte(len(b))}, b...) }
+	u32 := func(v uint32) []byte { return []byte{byte(v >> 24), byte(v >> 16), byte(v >> 8), byte(v)} }
+	pub := append(str([]byte("ssh-ed25519")), str(r.bytes(32))...)
+	priv := r.bytes(64)
+	container := func(cipher, kdf string, opts []byte, nkeys uint32) []byte {
+		var c []byte
+		c = append(c, "openssh-key-v1\x00"...)
+		c = append(c, str([]byte(cipher))...)
+		c = append(c, str([]byte(kdf))...)
+		c = append(c, str(opts)...)
+		c = append(c, u32(nkeys)...)
+		c = append(c, str(pub)...)
+		c = append(c, str(priv)...)
+		return c
+	}
+	salt := r.bytes(16)
+	for _, sl := range []uint32{0, 1, 15, 16, 17, 0xFFFF, 0x7FFFFFFF, 0x80000000, 0xFFFFFFF7, 0xFFFFFFF8, 0xFFFFFFF9, 0xFFFFFFFB, 0xFFFFFFFC, 0xFFFFFFFD, 0xFFFFFFFF} {
+		for _, tail := range [][]byte{nil, {0, 0, 0, 16}, append(append([]byte{}, salt...), 0, 0, 0, 16), salt} {
+			add("kdfopts", container("aes256-ctr", "bcrypt", append(u32(sl), tail...), 1))
+		}
+	}
+	for n := 0; n < 8; n++ {
+		add("kdfopts-short", container("aes256-ctr", "bcrypt", r.bytes(n), 1))
+	}
+	for _, nk := range boundaries {
+		add("nkeys", container("none", "none", nil, nk))
+	}
+	good := container("aes256-ctr", "bcrypt", append(append(u32(16), salt...), 0, 0, 0, 16), 1)
+	add("good", good)
+	add("good-none", container("none", "none", nil, 1))
+	add("trailing", append(append([]byte{}, good...), 0))
+	offs := []int{15}
+	o := 15
+	for i := 0; i < 3; i++ {
+		o += 4 + int(binary.BigEndian.Uint32(good[o:]))
+		offs = append(offs, o)
+	}
+	offs = append(offs, o+4, o+8) // nkeys, then pubkey length
+	for _, f := range offs {
+		for _, l := range boundaries {
+			m := append([]byte{}, good...)
+			binary.BigEndian.PutUint32(m[f:], l)
+			add("lenfield", m)
+		}
+	}
+	for i := 0; i < len(good); i += 3 {
+		add("prefix", good[:i])
+	}
+	return out
+}
+
 func genRobust(prop, tier string, r *rng) {
 	hs := hostileInputs(tier, r)
 	op := "robust"
@@ -476,8 +495,12 @@ func genRobust(prop, tier string, r *rng) {
 		fmt.Fprintf(out, "%s %s %s %s => %s\n", op, hxs(h.kind), hxs(h.name), hx(h.data), res)
 	}
 	genSsh1(tier, r)
+	if prop == "C01" {
+		genOpenSsh(tier, r)
+	}
 	if prop == "C08" {
 		genRpmGuard(tier, r)
+		genJksGuard(tier, r)
 	}
 	if prop == "C01" {
 		// the same inputs through the real binary (16 at a time); quick: the constructed inputs and every 8th fixture mutant
